@@ -66,6 +66,13 @@ def gen_cases(rng, n):
         s = rs(rng, rng.choice([0, 1, 3, 6, 10, 14]))
         c = rng.choice(SEPS) if _LOOK is None else rng.choice(_LOOK[:3] + [_LOOK[0] * 2])
         t = rs(rng, 3)
+        if rng.random() < 0.12:
+            # periodic strings: the separator / pattern is a unit repeated with a proper border (u u prefix(u)), the subject a
+            # longer run of the unit with noise - occurrences overlap at every shift of the period
+            unit = rng.choice(["ab", "abc", "a\u20ac", "\u00e9\U0001f60e", "aab", "xyx", "\U0001f600a\u0301"])
+            c = unit * rng.randint(1, 2) + unit[:rng.randint(1, len(unit))]
+            s = rng.choice(["", "x", unit[-1:], "\u20ac"]) + unit * rng.randint(2, 6) + rng.choice(["", unit[:1], "z", unit])
+            t = rng.choice([unit, c, unit[:1]])
         L = len(s)
         i = rng.randint(-3, L + 3)
         k = rng.randint(0, L + 3)
@@ -261,7 +268,7 @@ def run(tier, seed):
     for a in common.pmap(shard, [(seed * 211 + i, n // 64) for i in range(64)]):
         total.merge(a)
     rule = ("strings over a mixed alphabet (ASCII, 2-/3-/4-byte characters, combining marks, every 6th case over an ASCII character and "
-            "the code points sharing its low byte / low 16 bits plus neighbours sharing UTF-8 lead bytes, separators that are "
+            "the code points sharing its low byte / low 16 bits plus neighbours sharing UTF-8 lead bytes, periodic subjects and patterns (a unit repeated with a proper border, so that occurrences overlap), separators that are "
             "substrings/overlaps of each other, empty) x index/len/limit arguments incl. negative, fractional, 2^53, "
             "1e300; oracle = Python str operations (code-point based) for ~60 function families and identities "
             "(join(split) == s, findSubstr = all overlapping positions, maximal strip, first/last n separators). "
